@@ -109,6 +109,7 @@ def jobs_for(tier, exe):
     items += [(tag, prog, b"", {}) for tag, prog in xgen.argclobber_matrix(rnd, tier)]
     items += [(tag, prog, b"", {}) for tag, prog in xgen.arraycopy_matrix(rnd, tier)]
     items += [(tag, prog, inp, {}) for tag, prog, inp in xgen.reentry_matrix()]
+    items += [(tag, prog, inp, {}) for tag, prog, inp in xgen.guard_matrix()]
     items += shipped_items()
     for ch in chunks(items, W * (1 if tier == "quick" else 4)):
         jobs.append(("items", ch, exe))
